@@ -274,6 +274,8 @@ type Chain struct {
 	Wrapped, DelegateSlashed, GenesisDup, GenesisImport bool // what the harness knows it provoked (qualifies oracle signatures)
 	NearMax      bool // genesis total above 2^62: the generator keeps discretionary mints off
 	WholeApply   bool // apply each transaction through ApplyTransactions instead of ApplyTransaction
+	OracleOnly   bool // after the first DEX operation: real code + oracles only, no comparison with the ledger model
+	DexBatched   bool // a counter-chain DEX batch was handled (qualifies oracle signatures)
 }
 
 func ErrStr(err lib.ErrorI) string {
@@ -285,6 +287,13 @@ func ErrStr(err lib.ErrorI) string {
 
 func (c *Chain) emit(op, res string) {
 	c.Hist = append(c.Hist, op+"  =>  "+truncate(res, 200))
+	if c.OracleOnly {
+		// the chain has left the ledger model (DEX batch processing is modelled under C20): the operations still run on
+		// the real state machine under the oracles; the model answers `unsupported` to an `oracle-only` line
+		c.O.Count("oracle-only.ops") // these lines match trivially: they are not part of the correspondence count that matters
+		c.O.Op("oracle-only "+truncate(op, 300), "unsupported")
+		return
+	}
 	c.O.Op(op, res)
 }
 
